@@ -15,6 +15,7 @@ func setPlaceholderNames(n *ast.MsgNode) {
 	// Step 1: Determine representative nodes and build preliminary map
 	var (
 		baseNameToRepNodes  = make(map[string][]ast.Node)
+		baseNames           []string // in order of first appearance
 		equivNodeToRepNodes = make(map[ast.Node]ast.Node)
 	)
 
@@ -36,6 +37,7 @@ func setPlaceholderNames(n *ast.MsgNode) {
 
 		if nodes, ok := baseNameToRepNodes[baseName]; !ok {
 			baseNameToRepNodes[baseName] = []ast.Node{node}
+			baseNames = append(baseNames, baseName)
 		} else {
 			var isNew = true
 			var str = node.String()
@@ -54,7 +56,8 @@ func setPlaceholderNames(n *ast.MsgNode) {
 
 	// Step 2: Build final maps of name to representative node
 	var nameToRepNodes = make(map[string]ast.Node)
-	for baseName, nodes := range baseNameToRepNodes {
+	for _, baseName := range baseNames {
+		var nodes = baseNameToRepNodes[baseName]
 		if len(nodes) == 1 {
 			nameToRepNodes[baseName] = nodes[0]
 			continue
@@ -64,7 +67,9 @@ func setPlaceholderNames(n *ast.MsgNode) {
 		for _, node := range nodes {
 			for {
 				var newName = baseName + "_" + strconv.Itoa(nextSuffix)
-				if _, ok := nameToRepNodes[newName]; !ok {
+				// a suffixed name must not collide with a base name of the message
+				var _, isBaseName = baseNameToRepNodes[newName]
+				if _, ok := nameToRepNodes[newName]; !ok && !isBaseName {
 					nameToRepNodes[newName] = node
 					break
 				}
